@@ -188,6 +188,7 @@ def replay_history(inst, hist, stats, texts):
         events, info = [], []
         tbl, tbl_ix = [], {}
         node_enc = {}
+        rebound = [False]
 
         def intern(c):
             """content records are stored once per trace (compression only: TLC looks the records up and compares them)"""
@@ -254,6 +255,10 @@ def replay_history(inst, hist, stats, texts):
                 note = S.classify_cells(src, [pc])
             elif act == "bind":
                 note = S.wrapper_features(src)
+            if act in PRESERVING and act != "deep" and rebound[s - 1]:
+                note = (note + "+" if note else "") + "after-rebind"        # the source was produced (directly or not) by rebind
+            if new is not None:
+                rebound.append(act == "rebind" or rebound[s - 1])
             events.append({"act": act, "src": s, "dst": len(nodes) if new is not None else (s if act == "mutate" else 0),
                            "pre": [intern(c) for c in pre], "post": [intern(c) for c in post],
                            "cells": cells, "newp": newp_tok, "eq": eq, "exc": exc, "mc": mc, "prov": [dict(p) for p in prov], "note": note})
@@ -440,7 +445,7 @@ def _judge(plan, tier, t0, g, n_hists, model_negs, steps, insts, dropped, full):
             elif clause.split(":")[0] == "rebind":
                 key = f"{clause}:{cname}"
             else:
-                key = f"{actname}:{clause}:{cname}" + (f":{e['exc']}" if clause == "raises" else "") + (f":{note}" if actname == "bind" and note else "")
+                key = f"{actname}:{clause}:{cname}" + (f":{e['exc']}" if clause == "raises" else "") + (f":{note}" if note and e["act"] != "deep" else "")
             per_clause[f"{actname}:{clause}"] += 1
             if key in seen:
                 continue
